@@ -23,7 +23,7 @@ type caseC12 struct {
 	Rel   string `json:"rel,omitempty"`   // equals: how v was derived from u
 }
 
-var c12ops = []string{"add", "sub", "mul", "square", "neg", "invert", "sqrtratio", "sgn0", "iszero", "equals", "cmove", "set", "one", "bytes"}
+var c12ops = []string{"add", "sub", "mul", "square", "neg", "invert", "sqrtratio", "sgn0", "iszero", "equals", "cmove", "set", "one", "bytes", "mul", "square", "mul", "square", "add", "sub"}
 
 func mk12(op string, u, v *big.Int) caseC12 {
 	return caseC12{Op: op, U: fv(u), V: fv(v), Prior: fv(big.NewInt(9))}
@@ -81,6 +81,16 @@ var c12 = gen.Register(&gen.Check[caseC12]{
 			mk12("sqrtratio", big.NewInt(3), two), mk12("sqrtratio", pm1, bigOne), mk12("sqrtratio", pm1, pm1),
 			mk12("sgn0", z, z), mk12("sgn0", bigOne, z), mk12("sgn0", pm1, z), mk12("iszero", z, z), mk12("iszero", pm1, z),
 			mk12("equals", pm1, pm1), mk12("equals", z, pm1), mk12("one", two, z), mk12("bytes", pm1, z), mk12("set", pm1, z),
+		}
+		// exhaustive: every element whose four Montgomery limbs are taken from LimbPatterns (10^4 values, those < p kept),
+		// through the one-operand operations
+		for _, m := range gen.WordProducts(new(big.Int), 64, func(w, mask uint64) []uint64 { return gen.LimbPatterns }) {
+			if m.Cmp(ref.P) >= 0 {
+				continue
+			}
+			for _, op := range []string{"square", "neg", "iszero", "sgn0", "bytes"} {
+				out = append(out, caseC12{Op: op, U: FV{Hex: gen.H(m), Mont: true}, V: fv(z), Prior: fv(z), Rel: "pattern-product"})
+			}
 		}
 		for _, cond := range []uint64{0, 1} {
 			c := mk12("cmove", big.NewInt(3), big.NewInt(5))
@@ -243,7 +253,7 @@ type caseC12bytes struct {
 func gen32AroundP(t *rapid.T) *big.Int {
 	two256 := new(big.Int).Lsh(bigOne, 256)
 	var v *big.Int
-	switch rapid.IntRange(0, 7).Draw(t, "k32") {
+	switch gen.Pick(t, "k32", 8) {
 	case 6:
 		v = gen.PerturbWords(t, ref.P, 64)
 	case 7:
@@ -274,7 +284,18 @@ func gen48(t *rapid.T, m *big.Int) []byte {
 	two384 := new(big.Int).Lsh(bigOne, 384)
 	two192 := new(big.Int).Lsh(bigOne, 192)
 	var v *big.Int
-	switch rapid.IntRange(0, 8).Draw(t, "k48") {
+	switch gen.Pick(t, "k48", 10) {
+	case 9: // high part = floor(2^k / c) +- d for the modulus defect c = 2^256 - m (where folding hi*c back wraps), low part high
+		c := new(big.Int).Sub(new(big.Int).Lsh(bigOne, 256), m)
+		k := uint(rapid.SampledFrom([]int{256, 255, 257, 320, 384}).Draw(t, "qk"))
+		hi := new(big.Int).Div(new(big.Int).Sub(new(big.Int).Lsh(bigOne, k), bigOne), c)
+		hi.Add(hi, big.NewInt(int64(rapid.IntRange(-1, 1).Draw(t, "qd"))))
+		hi.Mod(hi, new(big.Int).Lsh(bigOne, 128))
+		lo := new(big.Int).Sub(new(big.Int).Lsh(bigOne, 256), bigOne)
+		if !rapid.Bool().Draw(t, "loAllOnes") {
+			lo.Sub(lo, gen.Int(new(big.Int).Lsh(bigOne, 200)).Draw(t, "lod"))
+		}
+		v = hi.Lsh(hi, 256).Add(hi, lo)
 	case 0:
 		v = new(big.Int).Sub(two384, big.NewInt(int64(rapid.IntRange(1, 3).Draw(t, "d")))) // all ones
 	case 1: // low half zero
@@ -299,7 +320,7 @@ func gen48(t *rapid.T, m *big.Int) []byte {
 			v.Or(v, new(big.Int).SetUint64(gen.Limb().Draw(t, "l")))
 		}
 	default:
-		v = new(big.Int).SetBytes(gen.Bytes(48, 48).Draw(t, "rnd"))
+		v = new(big.Int).SetBytes(gen.RandBytes(t, "rnd", 48))
 	}
 	if v.Sign() < 0 {
 		v.Neg(v)
